@@ -18,7 +18,7 @@ THEOREMS = {
     'RsomeV.Props.C01': ['RsomeV.C01.rc_sound', 'RsomeV.C01.rc_sound_eq'],
     'RsomeV.Props.C08': ['RsomeV.C08.cone_dual_weak'],
     'RsomeV.Props.C13': ['RsomeV.C13.run_events', 'RsomeV.C13.rule_var_shares', 'RsomeV.C13.mask_respected'],
-    'RsomeV.Props.C03Model': ['RsomeV.C03Model.dro_model_sound', 'RsomeV.C03Model.dro_model_sound_R', 'RsomeV.C03Model.dro_model_sound_E', "RsomeV.C03Model.dro_model_sound_E'", 'RsomeV.C03Model.ex_sound'],
+    'RsomeV.Props.C03Model': ['RsomeV.C03Model.dro_model_sound', 'RsomeV.C03Model.dro_model_sound_R', 'RsomeV.C03Model.dro_model_sound_E', "RsomeV.C03Model.dro_model_sound_E'", 'RsomeV.C03Model.droItems_piecesOK', 'RsomeV.C03Model.ex_sound'],
 }
 RULE = ("random dro models: 1-4 scenarios (default, string and non-positional integer labels), box supports per scenario, 0-2 "
         "expectation sets on random events (whole set or slices), fixed or box probability sets, a static and an event-wise "
@@ -76,7 +76,7 @@ def search_one(ctx, d, exact=False):
 def run(ctx):
     # correspondence: the lifted (probability, scaled-mean) support built by the real mix_support vs the Lean model (exact)
     C.run_difftest(ctx, 'test_ro_to_roc.py', ctx.n(60, 1000), 'dro.Model.ro_to_roc (scenario-wise substitution of decision rules into robust / linear constraints)')
-    # (re-enabled when the model follows repair 1418933) C.run_difftest(ctx, 'test_dro_model.py', ctx.n(40, 600), 'dro.Model.do_math (whole compiled program of a dro model)')
+    C.run_difftest(ctx, 'test_dro_model.py', ctx.n(40, 600), 'dro.Model.do_math (whole compiled program of a dro model)')
     C.run_difftest(ctx, 'test_dro_rows.py', ctx.n(60, 1000), 'dro.Model.dro_to_roc (first-stage fragment and second-stage robust rows of an expectation constraint)')
     C.run_difftest(ctx, 'test_mix_support.py', ctx.n(120, 2500), 'Ambiguity.mix_support (lifted support of the event-wise ambiguity set)')
     for k in range(ctx.n(160, 2500)):
